@@ -51,6 +51,7 @@ Proof.
     destruct (take st) as [[t s1]|e] eqn:Ht; cbn [bind] in H; [|discriminate].
     inversion H; subst. cbn in Hk. destruct Hk as [<-|[]]. eapply take_free; eauto.
   - destruct (alook v (l_lv st)); inversion H; subst. destruct Hk.
+  - destruct (rf_lookup r st); inversion H; subst. destruct Hk.
 Qed.
 
 Lemma low_src_y : forall x st l p ts st1,
